@@ -24,7 +24,7 @@ def IsPreResponse (p : Str) : Prop := ∃ ms : Int, 0 ≤ ms ∧ p = b!"timeout:
 def Conformant (r : ReqIn) : Eff → Prop
   | .pub subj payload =>
     (subj = replySubj ∧ (IsPreResponse payload ∨ IsResponse (r.isHTTP && r.payload == .ok) payload)) ∨
-    (∃ name, subj = evSubj r name ∧ (name ∈ [str "change", b!"add", b!"remove", b!"create", b!"delete", b!"reaccess"] ∨
+    (∃ name, subj = evSubj r name ∧ (name ∈ [b!"change", b!"add", b!"remove", b!"create", b!"delete", b!"reaccess"] ∨
         (isValidPartB name = true ∧ name ∉ reserved))) ∨
     (subj = b!"conn." ++ r.cid ++ b!".token")
   | _ => True
